@@ -35,7 +35,7 @@ if [ "$mode" = check ]; then
     git -C /repo checkout -- crates bins 2>/dev/null; git -C /repo status --short | grep -v '^ M tests/' | head
   else
     prep; git -C $WT apply "$sd/patch.diff" || exit 2
-    SV=/root/seedverif
+    SV=${SEED_SV:-/root/seedverif}
     mkdir -p $SV; rsync -a --delete --exclude .git --exclude 'evidence/*.json' /verif/ $SV/
     sed -i "s#/repo/crates#$WT/crates#g" $SV/harness/Cargo.toml
     for c in "$@"; do (cd $SV && ./check $c 2>&1 | tail -4 | sed "s/^/[$c] /"); done
